@@ -587,10 +587,95 @@ def wide_dtype(t):
     return None
 
 
+MERGE_KINDS = ['i', 'u', 'f', 'O', 'U', 'S', 'b', 'M']
+
+
+def _want_common_kind(k0, k1):
+    """the kind both operands must have after the reconciliation (None: the pair is not constrained by the property; a tuple: any of these)"""
+    if k0 == k1:
+        return k0
+    if 'O' in (k0, k1):
+        return 'O'
+    if 'f' in (k0, k1) and set((k0, k1)) <= set('iuf'):
+        return 'f'
+    if set((k0, k1)) == set('iu'):
+        return ('i', 'O', 'f')
+    return None
+
+
+def _merge_table_by_interpretation(ctx, fi):
+    """_check_axes_merge interpreted on two abstract axes that only know their label kind, for every pair of kinds: {(k0, k1): (kind of the first result,
+    kind of the second result)} where a kind is 'f32' / 'i32' when the cast was given a bare kind character (a narrow dtype).  None when the interpreter
+    cannot decide some pair (the symbolic reading is used then)."""
+    from ..absint import Interp, Closure, AbsObj, Undecided, Raised, TypeTok
+    mod = fi.module
+
+    def kind_of(d):
+        if isinstance(d, TypeTok):
+            return {'float': 'f', 'object': 'O', 'str': 'U', 'int': 'i', 'bool': 'b'}.get(d.name)
+        if isinstance(d, str):
+            return {'f': 'f32', 'i': 'i32', 'float32': 'f32', 'int32': 'i32', 'f4': 'f32', 'i4': 'i32', 'float64': 'f', 'int64': 'i', 'f8': 'f', 'i8': 'i'}.get(d, d)
+        return None
+    table = {}
+    for k0 in MERGE_KINDS:
+        for k1 in MERGE_KINDS:
+            def mkaxis(name, kind):
+                dt = AbsObj('dtype_' + name, attrs={'kind': kind})
+                vals = AbsObj('values_' + name, attrs={'dtype': dt})
+                o = AbsObj(name, attrs={'dtype': dt, 'values': vals, 'name': 'x'})
+                o.types = {'Axis', 'AbstractAxis', 'object'}
+                o.methods = {'cast': lambda obj, args, kw, name=name: ('CAST', name, kind_of(args[0] if args else kw.get('dtype')))}
+                return o
+            A, B = mkaxis('A', k0), mkaxis('B', k1)
+            interp = Interp({}, {})
+            env = {'Axis': TypeTok('Axis')}
+            for name, f in mod.functions.items():
+                env[name] = Closure(f.node, env, interp)
+            interp.with_module(mod, env)
+            try:
+                out = interp.call_function(fi.node, [A, B], env)
+            except (Undecided, Raised):
+                return None
+            except Exception:
+                return None
+            if not (isinstance(out, (tuple, list)) and len(out) == 3):
+                return None
+            res = []
+            for x, own, who in ((out[0], k0, 'A'), (out[1], k1, 'B')):
+                if x is A or x is B:
+                    res.append(k0 if x is A else k1)
+                elif isinstance(x, tuple) and len(x) == 3 and x[0] == 'CAST' and x[2] is not None:
+                    res.append(x[2])
+                else:
+                    return None
+            table[(k0, k1)] = tuple(res)
+    return table
+
+
 def rule_merge_cast(ctx, r8='R8', r9='R9'):
     """R8/R9: the kind reconciliation ahead of every union / intersection keeps each label exact"""
     ctx.rule(r8, '_check_axes_merge: operands are cast only when their kind differs, and to a full-width dtype', 4)
     fi = ctx.fn(AX + '_check_axes_merge')
+    table = _merge_table_by_interpretation(ctx, fi)
+    if table is not None:
+        # decided by interpretation, whatever the spelling (helper or not, chain of tests or precedence table)
+        ctx.rule(r9, '_get_cast_kind: the common kind can represent both inputs (decision table over kind pairs)', 20)
+        for (k0, k1), (ka, kb) in sorted(table.items()):
+            want = _want_common_kind(k0, k1)
+            narrow = [k for k in (ka, kb) if k in ('f32', 'i32')]
+            if narrow:
+                ctx.violated(r8, fi, 'merge of kinds (%s, %s): cast to a narrow dtype' % (k0, k1), 'an operand is cast with a dtype *kind* character: as a dtype \'f\' is float32 and \'i\' '
+                             'is int32, so int labels above 2**24 (or float64 labels) are rounded and the merged axis no longer contains the inputs\' labels')
+                continue
+            ctx.holds(r8, 'kinds (%s,%s): operands leave as (%s,%s)' % (k0, k1, ka, kb))
+            if want is None:
+                ctx.holds(r9, '(%s,%s) -> %s,%s (unconstrained pair)' % (k0, k1, ka, kb))
+            elif all((k == want) or (isinstance(want, tuple) and k in want) for k in (ka, kb)) and (ka == kb):
+                ctx.holds(r9, '(%s,%s) -> %s' % (k0, k1, ka))
+            else:
+                ctx.violated(r9, fi, 'common kind of (%r, %r)' % (k0, k1), 'axes of kinds %r and %r are merged as kinds (%r, %r), expected %r for both: labels of the wider kind '
+                             'would be truncated by the cast (or compared across kinds) before the union / intersection' % (k0, k1, ka, kb, want))
+        return
     ev = run(ctx, fi)
     n = 0
     for p in ret_paths(ev):
@@ -631,9 +716,13 @@ def rule_merge_cast(ctx, r8='R8', r9='R9'):
             ev = run(ctx, fk, bind={pnames[0]: const(k0), pnames[1]: const(k1)})
             rets = [p.value for p in ret_paths(ev)]
             if len(rets) != 1 or rets[0][0] != 'tuple' or rets[0][1][0][0] != 'const':
-                ctx.undecide(r9, '_get_cast_kind(%r, %r) does not evaluate to one constant result' % (k0, k1))
-                continue
-            got = rets[0][1][0][1]
+                # not a chain of tests on the two kinds: interpret the function (tables, sets, comprehensions) on the two concrete kind characters
+                got = _interpret_cast_kind(fk, k0, k1)
+                if got is None:
+                    ctx.undecide(r9, '_get_cast_kind(%r, %r) does not evaluate to one constant result' % (k0, k1))
+                    continue
+            else:
+                got = rets[0][1][0][1]
             want = None
             if k0 == k1:
                 want = k0
@@ -650,6 +739,26 @@ def rule_merge_cast(ctx, r8='R8', r9='R9'):
             else:
                 ctx.violated(r9, fk, '_get_cast_kind(%r, %r)' % (k0, k1), 'the common kind of %r and %r is %r, expected %r: labels of the wider kind would be truncated '
                              'by the cast before the union / intersection' % (k0, k1, got, want))
+
+
+def _interpret_cast_kind(fk, k0, k1):
+    """common kind returned by _get_cast_kind for two concrete kind characters, by interpretation; None when the interpreter cannot decide"""
+    from ..absint import Interp, Closure, Undecided, Raised
+    mod = fk.module
+    interp = Interp({}, {})
+    env = {}
+    for name, f in mod.functions.items():
+        env[name] = Closure(f.node, env, interp)
+    interp.with_module(mod, env)
+    try:
+        out = interp.call_function(fk.node, [k0, k1], env)
+    except (Undecided, Raised):
+        return None
+    except Exception:
+        return None
+    if isinstance(out, (tuple, list)) and out and isinstance(out[0], str):
+        return out[0]
+    return None
 
 
 UNION_TABLE = {}
